@@ -564,11 +564,15 @@ func (s *Snapshot) Decode(buf []byte, r io.Reader) error {
 // When snapshots are shared by multiple threads, each thread should Open the
 // snapshot. This API internally tracks the reference count for the snapshot.
 func (s *Snapshot) Open() bool {
-	if atomic.LoadInt32(&s.refCount) == 0 {
-		return false
+	for {
+		rc := atomic.LoadInt32(&s.refCount)
+		if rc == 0 {
+			return false
+		}
+		if atomic.CompareAndSwapInt32(&s.refCount, rc, rc+1) {
+			return true
+		}
 	}
-	atomic.AddInt32(&s.refCount, 1)
-	return true
 }
 
 // Close is the snapshot descructor
